@@ -36,7 +36,7 @@ ANCHORS = ['io:from_json', 'io:from_yaml', 'io:from_yaml_all', 'io:write_json', 
            'classes:PaneBase.write_json', 'classes:PaneBase.write_yaml', 'classes:PaneBase.from_json', 'classes:PaneBase.from_yaml',
            'classes:PaneBase.from_yaml_all', 'classes:PaneBase.from_jsons', 'classes:PaneBase.from_yamls']
 MIN_COUNTERS = {'quick': {'round_trips': 8000, 'paths_opened_by_pane': 2500, 'caller_streams_checked': 3000, 'yaml_all_checked': 600,
-                          'returned_strings_checked': 300, 'non_ascii_payloads': 1200, 'failed_reads_checked': 300}}
+                          'returned_strings_checked': 300, 'non_ascii_payloads': 1200, 'failed_reads_checked': 300, 'offset_streams_checked': 300}}
 
 ALLOW = ('int', 'float', 'str', 'bool', 'none', 'list', 'seq', 'dict', 'tup', 'union', 'dc', 'enum', 'lit', 'fraction', 'decimal',
          'date', 'time', 'datetime', 'path', 'deque', 'sub', 'cc', 'set', 'bytes')
@@ -319,6 +319,53 @@ def run(ctx):
         return ty
 
     drive.for_each_case(ctx, 'main', ctx.budget, body, gen=gen, seconds=60)
+
+    # caller-owned streams that are not at their beginning: a preamble the caller wrote first stays, the document goes where the
+    # stream stands, and reading starts where the caller positioned the stream (not at offset 0)
+    def body_offset(i, rng, ty, T):
+        if not c05.in_scope(ty) or gentypes._has_any(ty):
+            return
+        v = genval.member(ty, rng)
+        o = observe(env.from_data, v, T)
+        if o.kind != 'value' or c05.roundtrip(T, o.val, ty) is not None:
+            return
+        x = o.val
+        dp = plain_data(env.into_data(x, T))
+        for fmt in ('json', 'yaml'):
+            opts = {}
+            if not (jsonable(dp) if fmt == 'json' else yamlable(dp)) or not lib_roundtrips(fmt, dp, opts):
+                continue
+            preamble = rng.choice(('# written by the caller\n', 'HEADER 1\nHEADER 2\n', '\n'))
+            kind = rng.choice(('StringIO', 'file'))
+            stream = io.StringIO() if kind == 'StringIO' else _real_open(fresh(fmt), 'w+', encoding='utf-8')
+            try:
+                stream.write(preamble)
+                pos = stream.tell()
+                method = ty.k == 'dc' and rng.random() < 0.5
+                w = write(fmt, x, stream, T, opts, method)
+                ctx.count('offset_streams_checked')
+                ctx.count('caller_streams_checked')
+                wit = {'format': fmt, 'stream': kind, 'preamble': preamble, 'type': describe(ty), 'value': short(x, 200), 'write': w.brief()}
+                if w.kind != 'value' or stream.closed:
+                    ctx.violation('caller-stream-left-open', 'offset', i, {**wit, 'closed': stream.closed}, mech='offset-stream-closed-or-failed')
+                    continue
+                stream.flush()
+                stream.seek(0)
+                whole = stream.read()
+                if not whole.startswith(preamble) or len(whole) <= len(preamble):
+                    ctx.violation('round-trip', 'offset', i, {**wit, 'stream_content': short(whole, 200)}, mech='preamble-overwritten-or-nothing-appended')
+                    continue
+                stream.seek(pos)
+                r = read(fmt, stream, T, method)
+                ctx.case(('offset', fmt, kind, r.kind), nontrivial=True)
+                if r.kind != 'value' or not deep_typed_eq(x, r.val)[0] or stream.closed:
+                    ctx.violation('round-trip', 'offset', i, {**wit, 'read_from_offset': r.brief(), 'closed': stream.closed}, mech='read-does-not-start-at-the-stream-position')
+            finally:
+                if kind == 'file' and not stream.closed:
+                    stream.close()
+                del OPENED[:]
+
+    drive.for_each_case(ctx, 'offset', max(20, ctx.budget // 8), body_offset, gen=gen, seconds=30)
 
     # ---- multi-document YAML: one converted value per document -------------------------------------------------------------
     def body_all(i, rng, ty, T):
